@@ -24,3 +24,63 @@ def canon(ans):
         else:
             out.append(" ".join(t.split()))
     return ("ok", tuple(out))
+
+
+# (B) failure class (printed by `drv_c13 spec`) -> id of the finding in known_findings.json
+CLASS_TO_FINDING = {
+    "panic:ctrl-between-targets": "C13-ctrl-between-targets-panic",
+    "panic:resetall-no-qubits": "C13-resetall-zero-qubits-panic",
+    "panic:nested-loop": "C13-nested-loop-header-panic",
+    "panic:subbit-out-of-range": "C13-composite-subbit-panic",
+    "panic:empty-loop": "C13-zero-width-loop-panic",
+    "span:barrier": "C13-barrier-span-not-reserved",
+    "unconnected:kron-in-range": "C13-controlled-kron-unconnected",
+    "span:kron-in-range": "C13-controlled-kron-unconnected",
+    "connector:identity-in-range": "C13-control-on-bare-wire",
+    "unconnected:identity-in-range": "C13-control-on-bare-wire",
+    "loop-brace:empty-loop-body": "C13-empty-loop-body-brace",
+}
+for _k in ("symbol", "connector", "order", "unconnected", "span", "missing", "loop-brace", "extra"):
+    CLASS_TO_FINDING[_k + ":multistage-in-range"] = "C13-multicolumn-gate-in-range"
+
+
+def classify(fl):
+    return CLASS_TO_FINDING.get(fl.get("class", ""))
+
+
+def nontrivial(req, ans):
+    # a circuit with at least two operations that was drawn, or any refused / panicking export
+    return req.count("|") >= 2 or not ans.startswith("ok")
+
+
+SPEC = {
+    "tables": ["LatexGates"],
+    "props_module": PROPS_MODULE,
+    "required": ["undrawable_is_error"],
+    "drivers": ["drv_c13"],
+    "harness_bin": "c13",
+    "canon": canon,
+    "spec_check": vlib.spec_via_driver("drv_c13"),
+    "classify": classify,
+    "nontrivial": nontrivial,
+    "rule": "fixed witnesses of every defect class; every library gate (H X Y Z S Sdg T Tdg V Vdg I RX RY RZ U1 U2 U3 CX CY CZ Swap CH "
+            "CRX CRY CRZ CS CSdg CT CTdg CU1 CU2 CU3 CV CVdg CCRX CCRY CCRZ CCX CCZ) at every ordered placement on 1..4 qubits, plain after an H, "
+            "conditional on 1..3 classical bits, inside a composite, and controlled once more (C<G>) at every placement; block gates with the "
+            "trait's default drawing on 1..4 qubits at every placement; 4000 (quick) / 40000 (thorough) random circuits on 0..4 qubits and 0..3 bits "
+            "with 1..14 operations of every CircuitOp kind (gates incl. C<dyn>, Kron, Composite via from_string and add_gate, Loop, nesting depth 3, "
+            "reference/NaN/inf parameters; conditional gates; measure/peek X/Y/Z; measure_all; peek_all; reset; reset_all; barrier; 5% malformed "
+            "operand lists); 2500 / 20000 random sequences of the public LatexExportState methods. (A) compares parsed cells; (B) parses the "
+            "implementation's text with Spec/QcGrid and evaluates WellDrawn. Non-trivial = circuit with >= 2 operations, or an export that was refused or panicked.",
+    "exhaustive": False,
+}
+
+
+def run(ctx):
+    vlib.standard_flow(ctx, SPEC)
+    ctx.assumptions += [
+        "Rust `format!` of usize/isize and `{:.4}` of a Parameter are not modelled: numbers are printed by Lean's toString (compared by (A)), "
+        "parameters cross the boundary as the display strings the harness computes with the same format",
+        "the theorems are about the grid of symbols the model's `code` prints; that the exported text reads back as that grid is checked by (B) "
+        "on every generated case (Spec.QcGrid.readDoc on the implementation's text), not proved",
+        "Vec/slice semantics are list semantics; usize arithmetic is Nat arithmetic with explicit underflow checks; debug-profile overflow checks are on",
+    ]
